@@ -39,6 +39,9 @@ def check(run, prog, tier):
     rule_C(run, prog)
     run.rule("C20-D", "concrete cross-check: the blocks of every rank partition the range (finite evaluation)", minimum=3)
     rule_D(run, prog, f, tier)
+    run.rule("C20-E", "the public block helpers hand every rank exactly its block, with and without indices "
+                      "(finite evaluation)", minimum=4)
+    rule_E(run, prog, f, tier)
     run.extra["exhaustive"] = True
 
 
@@ -101,6 +104,85 @@ def rule_D(run, prog, f, tier):
                        message="%s does not partition the range on %d of %d configurations; first: size=%s start=%s "
                                "stop=%s rank=%s: %s" % ((wname, len(bad), ncfg) + (bad[0] if bad else ("",) * 5)),
                        loc=(wf or f).loc(), sample={"function": wname, "configurations": ncfg})
+
+
+def rule_E(run, prog, f, tier):
+    """block_distributed_range / _list / _array are interpreted (qv/feval.py) inside a declared parallel
+    region at parallel level 1 for every process count and rank up to the bound: what rank r receives
+    must be exactly the elements (or the (global index, element) pairs) of its block; over all ranks
+    the pieces are pairwise disjoint and cover the input once."""
+    from .. import feval
+    from ..feval import Stub, Vec, Mat
+    rid = "C20-E"
+    maxsize, maxlen = (6, 13) if tier != "thorough" else (12, 30)
+    ranges_f = {n_: prog.func(PAR + n_) for n_ in ("_calculate_ranges", "_calculate_ranges_list", "_calculate_ranges_array")}
+
+    def interp(fn, args):
+        return feval.Evaluator().call_function(fn.node, args)
+
+    def make_env(cfg):
+        env = {"Manager": lambda: mgr}
+        mgr = Stub("Manager")
+        mgr.methods = {"get_DistributedConfiguration": lambda: cfg}
+        env["_calculate_ranges"] = lambda c, a, b: interp(ranges_f["_calculate_ranges"], {"config": c, "start": a, "stop": b})
+        for nme in ("_calculate_ranges_list", "_calculate_ranges_array"):
+            g = ranges_f[nme]
+            p0, p1 = [a.arg for a in g.node.args.args]
+            env[nme] = (lambda g, p0, p1: (lambda c, x: feval.Evaluator().call_function(
+                g.node, {p0: c, p1: x, "_calculate_ranges": env["_calculate_ranges"]})))(g, p0, p1)
+        return env
+    cases = [("block_distributed_range", None), ("block_distributed_list", False), ("block_distributed_list", True),
+             ("block_distributed_array", False), ("block_distributed_array", True)]
+    for hname, with_index in cases:
+        h = prog.func(PAR + hname)
+        bad = []
+        ncfg = 0
+        for size in range(1, maxsize + 1):
+            for ln in range(0, maxlen + 1):
+                pieces = []
+                for rank in range(size):
+                    ncfg += 1
+                    cfg = Stub("DistributedConfiguration", size=size, rank=rank, parallel_region=1, parallel_level=1)
+                    env = make_env(cfg)
+                    try:
+                        if hname == "block_distributed_range":
+                            env.update({"start": 2, "stop": 2 + ln})
+                            got = list(feval.Evaluator().call_function(h.node, env))
+                            want_universe = list(range(2, 2 + ln))
+                        elif hname == "block_distributed_list":
+                            data = [100 + k for k in range(ln)]
+                            env.update({h.node.args.args[0].arg: data, "return_index": with_index})
+                            got = list(feval.Evaluator().call_function(h.node, env))
+                            want_universe = [(k, 100 + k) for k in range(ln)] if with_index else data
+                        else:
+                            data = Mat(Vec([100 + k]) for k in range(ln))
+                            env.update({h.node.args.args[0].arg: data, "return_index": with_index})
+                            got = list(feval.Evaluator().call_function(h.node, env))
+                            got = [(g_[0], list(g_[1])[0]) if with_index else list(g_)[0] for g_ in got]
+                            want_universe = [(k, 100 + k) for k in range(ln)] if with_index else [100 + k for k in range(ln)]
+                    except feval.Unsupported as e:
+                        raise AnalysisError("%s: outside the finite evaluator's vocabulary: %s" % (hname, e))
+                    except feval.Raised as e:
+                        bad.append((size, ln, rank, "raises %s" % e))
+                        got = []
+                    pieces.append(got)
+                    blk = cfg.attrs.get("ranges")
+                    if blk is not None and len(blk) == size:
+                        lo, hi = blk[rank]
+                        off = 2 if hname == "block_distributed_range" else 0
+                        mine = want_universe[lo - off:hi - off]
+                        if got != mine:
+                            bad.append((size, ln, rank, "rank %d receives %s, its block %s holds %s" % (rank, got[:4], [lo, hi], mine[:4])))
+                flat = [x for pc in pieces for x in pc]
+                if sorted(flat, key=repr) != sorted(want_universe, key=repr) and not any(b[:2] == (size, ln) for b in bad):
+                    bad.append((size, ln, -1, "the pieces of all ranks together are %d items, the input has %d"
+                                % (len(flat), len(want_universe))))
+        run.obligation(rid, "parallel.%s%s" % (hname, "" if with_index is None else "[return_index=%s]" % with_index),
+                       not bad, key="finite:size<=%d,len<=%d" % (maxsize, maxlen),
+                       message="%s does not hand every rank exactly its block on %d of %d (size, length, rank) "
+                               "configurations; first: size=%s length=%s rank=%s: %s"
+                               % ((hname, len(bad), ncfg) + (bad[0] if bad else ("",) * 4)),
+                       loc=h.loc(), sample={"helper": hname, "return_index": with_index, "configurations": ncfg})
 
 
 def rule_A(run, prog, f):
